@@ -591,17 +591,30 @@ def compare_log(registry, exp):
 # Running one body against a fresh real dispatcher
 
 
-def make_dispatcher(version, jsonclass, mode, registry=None, config=None, handlers=None):
+def make_dispatcher(version, jsonclass, mode, registry=None, config=None, handlers=None, born=False):
+    """born=True: the dispatcher is created on a Config with the *other* version and the other translation switch, and the
+    Config it holds is edited to (version, jsonclass) afterwards - what counts is the configuration at the time of the request"""
     from jsonrpclib.SimpleJSONRPCServer import SimpleJSONRPCDispatcher
     from jsonrpclib.config import Config
 
-    cfg = config or Config(version=version, use_jsonclass=jsonclass)
-    if handlers:
-        cfg.serialize_handlers.update(HANDLER_TABLES[handlers])
+    if born and config is None:
+        cfg = Config(version=1.0 if version >= 2 else 2.0, use_jsonclass=not jsonclass)
+    else:
+        cfg = config or Config(version=version, use_jsonclass=jsonclass)
     registry = registry or Registry(jsonclass=jsonclass)
     disp = SimpleJSONRPCDispatcher(config=cfg)
     dm = registry.install(disp, mode)
+    if born and config is None:
+        cfg.version = version
+        cfg.use_jsonclass = jsonclass
+    if handlers:
+        cfg.serialize_handlers.update(HANDLER_TABLES[handlers])
     return disp, dm, registry, cfg
+
+
+def born_elsewhere(text):
+    """One body in four meets a dispatcher whose Config was edited after construction (a pure function of the body)"""
+    return sum(map(ord, text[:48])) % 4 == 0
 
 
 def run_body(text, version, jsonclass, mode, exc_factory=None, handlers=None):
@@ -613,7 +626,7 @@ def run_body(text, version, jsonclass, mode, exc_factory=None, handlers=None):
 
     registry = Registry(jsonclass=jsonclass, exc_factory=exc_factory)
     exp = model(text, version, registry, mode, handlers)
-    disp, dm, registry, cfg = make_dispatcher(version, jsonclass, mode, registry, handlers=handlers)
+    disp, dm, registry, cfg = make_dispatcher(version, jsonclass, mode, registry, handlers=handlers, born=born_elsewhere(text))
     try:
         out = disp._marshaled_dispatch(text, dm)
     except Exception as ex:
